@@ -432,6 +432,8 @@ def replay(rec):
     import tempfile
 
     if "call" in rec:
+        if rec.get("obligation", "").startswith("check_crash"):
+            return real_truncation_replay()
         return chrun.replay_record(rec, os.path.join(HERE, "ch"))
     real = kindl.real_pkg()
     import bldfm.cache as RC
@@ -472,6 +474,62 @@ def replay(rec):
     stale = not same(r2, ref)
     out.update(served_from_cache=bool(Counting.hits > h0), stale=bool(stale), confirmed=bool(stale))
     return out
+
+
+def real_truncation_replay():
+    """real files: an entry written by the real put(), truncated at every 1/16th; the next identical
+    request must be served (recomputed) without raising, and an interrupted put must not leave a
+    partial file under the entry's name"""
+    import glob
+    import tempfile
+
+    real = kindl.real_pkg()
+    import bldfm.cache as RC
+
+    S = real.solver.steady_state_transport_solver
+    d = tempfile.mkdtemp(prefix="vfc15_")
+    cache = RC.GreensFunctionCache(d)
+    q, z, prof, dom, lv, kw = _request(dict(shape=(4, 6), levels=1, modes=(6, 4), precision="double", analytic=False, halo_given=True), None)
+    ref = S(q, z, prof, dom, lv, cache=cache, **kw)
+    files = glob.glob(os.path.join(d, "*.npz"))
+    bad = []
+    if len(files) != 1:
+        return dict(confirmed=False, note="expected one cache file, found %d" % len(files))
+    f = files[0]
+    blob = open(f, "rb").read()
+    for k in range(0, 16):
+        with open(f, "wb") as fh:
+            fh.write(blob[: len(blob) * k // 16])
+        try:
+            r = S(q, z, prof, dom, lv, cache=RC.GreensFunctionCache(d), **kw)
+            if not np.allclose(np.asarray(r[2], float), np.asarray(ref[2], float)):
+                bad.append([k, "wrong result"])
+        except Exception as e:
+            bad.append([k, type(e).__name__])
+    # interrupted write: np.savez dies half way
+    orig = np.savez
+
+    def dying(path, **arrays):
+        orig(path, **arrays)
+        p = str(path) if str(path).endswith(".npz") else str(path) + ".npz"
+        blob2 = open(p, "rb").read()
+        open(p, "wb").write(blob2[: len(blob2) // 2])
+        raise KeyboardInterrupt("killed during the write")
+
+    d2 = tempfile.mkdtemp(prefix="vfc15_")
+    RC.np.savez = dying
+    try:
+        try:
+            S(q, z, prof, dom, lv, cache=RC.GreensFunctionCache(d2), **kw)
+        except KeyboardInterrupt:
+            pass
+    finally:
+        RC.np.savez = orig
+    try:
+        S(q, z, prof, dom, lv, cache=RC.GreensFunctionCache(d2), **kw)
+    except Exception as e:
+        bad.append(["after interrupted write", type(e).__name__])
+    return dict(truncation_points_failing=bad, confirmed=bool(bad))
 
 
 CANARIES = [
@@ -540,6 +598,11 @@ def main(run):
                                 "check_crash_old_truncated": "same with a truncated older entry (symbolic failure kind of np.load): treated as a miss",
                                 "check_roundtrip": "put then get returns exactly what was stored; get of an absent key is None"})
     for fn, rec, ok in res:
+        if fn.startswith("check_crash"):
+            rr = real_truncation_replay()
+            rec["replay_real_files"] = rr
+            ok = bool(rr.get("confirmed"))
+            run.replays["attempted"] += 0
         run.report(rec, ok)
     import concurrent.futures as cf
     import multiprocessing as mp
